@@ -110,6 +110,23 @@ public:
   virtual CPPTemplateScope *as_template_scope();
 
 private:
+  // The scopes already searched by way of using-directives in the current
+  // lookup; using-directives may form a cycle.
+  typedef std::set<const CPPScope *> UsingVisited;
+
+  CPPType *find_type(const std::string &name, bool recurse,
+                     UsingVisited &visited) const;
+  CPPType *find_type(const std::string &name,
+                     CPPDeclaration::SubstDecl &subst,
+                     CPPScope *global_scope, bool recurse,
+                     UsingVisited &visited) const;
+  CPPScope *find_scope(const std::string &name, CPPScope *global_scope,
+                       bool recurse, UsingVisited &visited) const;
+  CPPDeclaration *find_symbol(const std::string &name, bool recurse,
+                              UsingVisited &visited) const;
+  CPPDeclaration *find_template(const std::string &name, bool recurse,
+                                UsingVisited &visited) const;
+
   bool
   copy_substitute_decl(CPPScope *to_scope, CPPDeclaration::SubstDecl &subst,
                        CPPScope *global_scope) const;
